@@ -12,6 +12,8 @@ CONSTANTS
   SdInterrupts = @SDINT@
   Deviation = "@DEV@"
   MaxClock = @MAXCLOCK@
+  CallTO = @CALLTO@
+  XCfgs <- MCXCfgs
 INVARIANT Inv DisabledOnce NilOnlyAfterSuccess
 PROPERTY Terminates
 CHECK_DEADLOCK TRUE
